@@ -448,3 +448,72 @@ Proof.
   - by eapply remove_moved_relinks.
   - intros. by eapply remove_moved_keeps.
 Qed.
+
+(* ---- expert_swap_children_except_in_kind: the two links exchange their child indices *)
+Lemma bindM_ok3 {A B} (m : M A) (k : A -> M B) s b s' :
+  bindM m k s = (Ok b, s') -> exists a s1, m s = (Ok a, s1) /\ k a s1 = (Ok b, s').
+Proof. unfold bindM. destruct (m s) as [[a| |] s1] eqn:E; intros H; [|done|done]. by exists a, s1. Qed.
+
+Lemma dassert_ok_state b site s u s1 : (forall st, (b st).2 = st) -> dassert b site s = (Ok u, s1) -> s1 = s.
+Proof.
+  intros Hb. unfold dassert, bindM, gets. cbv beta iota. destruct (debug s); [|unfold ret; by intros [= _ <-]].
+  specialize (Hb s). destruct (b s) as [[[|]| |] s2]; simpl in Hb; subst; unfold ret, panic; by intros [= _ <-].
+Qed.
+
+Lemma swap_children_links n c1 c2 ci1 ci2 i1 i2 s s' :
+  link s c1 i1 n ci1 -> link s c2 i2 n ci2 -> ci1 <> ci2 ->
+  expert_swap_children_except_in_kind n c1 ci1 c2 ci2 s = (Ok tt, s') ->
+  link s' c1 i1 n ci2 /\ link s' c2 i2 n ci1.
+Proof.
+  intros (cn1 & pn & Hc1 & Hp & Hpar1 & Hcix1 & H01 & Hpix1) (cn2 & pn' & Hc2 & Hp' & Hpar2 & Hcix2 & H02 & Hpix2) Hne E.
+  assert (pn' = pn) as -> by congruence.
+  unfold expert_swap_children_except_in_kind in E.
+  apply bindM_ok3 in E as (u0 & s0 & E0 & E).
+  apply dassert_ok_state in E0 as ->.
+  2:{ intros st. unfold get_node. unfold bindM, get, ret, panic. simpl. destruct (nodes st !! n); simpl; done. }
+  apply bindM_ok3 in E as (u1 & s1 & E1 & E).
+  destruct (bool_decide (n = c1) || bool_decide (n = c2)) eqn:Hb; [done|]. unfold ret in E1. injection E1 as _ <-.
+  apply orb_false_iff in Hb as [Hb1 Hb2]. apply bool_decide_eq_false in Hb1, Hb2.
+  rewrite (bindM_st _ _ _ _ _ (get_node_st n s pn Hp)) in E. rewrite (bindM_st _ _ _ _ _ (get_node_st c1 s cn1 Hc1)) in E.
+  rewrite (bindM_st _ _ _ _ _ (get_node_st c2 s cn2 Hc2)) in E. rewrite Hpix1, Hpix2 in E.
+  apply bindM_ok3 in E as (u2 & s2 & E2 & E). apply dassert_ok_state in E2 as ->; [|done].
+  apply bindM_ok3 in E as (u3 & s3 & E3 & E). apply dassert_ok_state in E3 as ->; [|done].
+  apply bindM_ok3 in E as (u4 & s4 & E4 & E).
+  match type of E4 with (if ?b then _ else _) _ = _ => destruct b eqn:Hrange; [|done] end. unfold ret in E4. injection E4 as _ <-.
+  unfold bindM, upd_node, modify in E. injection E as <-.
+  apply zget_Some in Hcix1 as Hl1. destruct Hl1 as [_ Hl1]. apply lookup_lt_Some in Hl1. rewrite Nat2Z.id in Hl1.
+  apply zget_Some in Hcix2 as Hl2. destruct Hl2 as [_ Hl2]. apply lookup_lt_Some in Hl2. rewrite Nat2Z.id in Hl2.
+  apply zget_Some in Hpix1 as Hx1. destruct Hx1 as [_ Hx1]. apply lookup_lt_Some in Hx1.
+  apply zget_Some in Hpix2 as Hx2. destruct Hx2 as [_ Hx2]. apply lookup_lt_Some in Hx2.
+  set (f1 := fun c : node => c <| n_cix_in_parent := zset (n_cix_in_parent c) (Z.of_nat i1) ci2 |>).
+  set (f2 := fun c : node => c <| n_cix_in_parent := zset (n_cix_in_parent c) (Z.of_nat i2) ci1 |>).
+  set (fp := fun p : node => p <| n_pix_in_child := zset (zset (n_pix_in_child p) ci1 (Z.of_nat i2)) ci2 (Z.of_nat i1) |>).
+  (* the final records of n, c1 and c2 *)
+  assert (nodes (s <| nodes := alter fp n (alter f2 c2 (alter f1 c1 (nodes s))) |>) !! n = Some (fp pn)) as Hn'.
+  { simpl. rewrite list_lookup_alter. rewrite !list_lookup_alter_ne by done. by rewrite Hp. }
+  assert (zget (n_pix_in_child (fp pn)) ci2 = Some (Z.of_nat i1)) as Hp2'.
+  { subst fp. simpl. apply zget_zset_eq; [done|]. unfold zset. by rewrite insert_length. }
+  assert (zget (n_pix_in_child (fp pn)) ci1 = Some (Z.of_nat i2)) as Hp1'.
+  { subst fp. simpl. rewrite zget_zset_ne by done. by apply zget_zset_eq. }
+  destruct (decide (c1 = c2)) as [->|Hcc].
+  - (* the same child twice *)
+    assert (cn2 = cn1) as -> by congruence.
+    assert (i1 <> i2) as Hii.
+    { intros ->. rewrite Hcix1 in Hcix2. by injection Hcix2. }
+    assert (nodes (s <| nodes := alter fp n (alter f2 c2 (alter f1 c2 (nodes s))) |>) !! c2 = Some (f2 (f1 cn1))) as Hc'.
+    { simpl. rewrite list_lookup_alter_ne by done. rewrite !list_lookup_alter. by rewrite Hc1. }
+    split; eexists _, _; (split_and!; [exact Hc'|exact Hn'| | |done|done]).
+    + subst f1 f2. simpl. done.
+    + subst f1 f2. simpl. rewrite zget_zset_ne; [|lia|lia|lia]. apply zget_zset_eq; [lia|by rewrite Nat2Z.id].
+    + subst f1 f2. simpl. done.
+    + subst f1 f2. simpl. apply zget_zset_eq; [lia|]. unfold zset. rewrite insert_length, Nat2Z.id. done.
+  - assert (nodes (s <| nodes := alter fp n (alter f2 c2 (alter f1 c1 (nodes s))) |>) !! c1 = Some (f1 cn1)) as Hc1'.
+    { simpl. rewrite list_lookup_alter_ne by done. rewrite list_lookup_alter_ne by done. rewrite list_lookup_alter. by rewrite Hc1. }
+    assert (nodes (s <| nodes := alter fp n (alter f2 c2 (alter f1 c1 (nodes s))) |>) !! c2 = Some (f2 cn2)) as Hc2'.
+    { simpl. rewrite list_lookup_alter_ne by done. rewrite list_lookup_alter. rewrite list_lookup_alter_ne by done. by rewrite Hc2. }
+    split.
+    + exists (f1 cn1), (fp pn). split_and!; [exact Hc1'|exact Hn'|done| |done|done].
+      subst f1. simpl. apply zget_zset_eq; [lia|by rewrite Nat2Z.id].
+    + exists (f2 cn2), (fp pn). split_and!; [exact Hc2'|exact Hn'|done| |done|done].
+      subst f2. simpl. apply zget_zset_eq; [lia|by rewrite Nat2Z.id].
+Qed.
